@@ -123,6 +123,9 @@ inductive Err where
   | notAList
   /-- `ValueError` from `self.validate()` after the placement -/
   | invalid
+  /-- whatever `str(child)` raises while the duplicate warning is being formatted (the `__str__` helpers of some
+      classes fail on incomplete components) -/
+  | strFails
 deriving DecidableEq, Repr
 
 inductive Warn where
@@ -132,8 +135,9 @@ inductive Warn where
   | duplicate
 deriving DecidableEq, Repr
 
-/-- `__add(obj, member, force)`: new parent and the warning issued, or the exception (nothing was changed) -/
-def place (parent child : Obj) (m : MemberSpec) (force : Bool) : Except Err (Obj × Option Warn) :=
+/-- `__add(obj, member, force)`: new parent and the warning issued, or the exception (nothing was changed).
+    `sOk`: `str(child)` succeeds (the duplicate warning formats the child; the "occupied" warning does not). -/
+def place (sOk : Bool) (parent child : Obj) (m : MemberSpec) (force : Bool) : Except Err (Obj × Option Warn) :=
   if !m.container then
     if force then .ok (parent.set m.name (.obj child), none)
     else match parent.get m.name with
@@ -145,7 +149,7 @@ def place (parent child : Obj) (m : MemberSpec) (force : Bool) : Except Err (Obj
     | none => .error .keyError
     | some (.list l) =>
       if force then .ok (parent.set m.name (.list (l ++ [.obj child])), none)
-      else if pyIn true child l then .ok (parent, some .duplicate)
+      else if pyIn true child l then (if sOk then .ok (parent, some .duplicate) else .error .strFails)
       else .ok (parent.set m.name (.list (l ++ [.obj child])), none)
     | some _ => .error .notAList
 
@@ -185,21 +189,22 @@ structure Outcome where
 /-- `parent.add(child, hint, force, validate)` for a component instance `child`, given the member list of the
     parent's class. `valid` is `validate()` accepting (properties C02/C03 relate it to the schema); the
     validation runs after the placement (or the refusal) and raises `ValueError` without undoing anything. -/
-def addCore (strict : Bool) (valid : Obj → Bool) (members : List MemberSpec) (g : Gate)
+def addCore (strict : Bool) (valid strOk : Obj → Bool) (members : List MemberSpec) (g : Gate)
     (parent child : Obj) (hint : Option Nat) (force : Bool) : Outcome :=
   match select strict (targets members child.cls) hint with
   | .error e => ⟨parent, none, .error e⟩
   | .ok none => ⟨parent, none, if g.on && !valid parent then .error .invalid else .ok child⟩
   | .ok (some m) =>
-    match place parent child m force with
+    match place (strOk child) parent child m force with
     | .error e => ⟨parent, none, .error e⟩
     | .ok (p', w) => ⟨p', w, if g.on && !valid p' then .error .invalid else .ok child⟩
 
 /-- the code as repaired -/
 def addWith := addCore true
 
-def add (T : Table) (valid : Obj → Bool) (g : Gate) (parent child : Obj) (hint : Option Nat) (force : Bool) :=
-  addWith valid (T.getMembers parent.cls) g parent child hint force
+def add (T : Table) (valid strOk : Obj → Bool) (g : Gate) (parent child : Obj) (hint : Option Nat)
+    (force : Bool) :=
+  addWith valid strOk (T.getMembers parent.cls) g parent child hint force
 
 /-- a sequence of `add` calls on one parent; the outcomes in call order -/
 structure Call where
@@ -208,11 +213,11 @@ structure Call where
   force : Bool
   gate : Gate
 
-def runCalls (T : Table) (valid : Obj → Bool) : Obj → List Call → Obj × List Outcome
+def runCalls (T : Table) (valid strOk : Obj → Bool) : Obj → List Call → Obj × List Outcome
   | p, [] => (p, [])
   | p, c :: cs =>
-    let r := add T valid c.gate p c.child c.hint c.force
-    let rest := runCalls T valid r.parent cs
+    let r := add T valid strOk c.gate p c.child c.hint c.force
+    let rest := runCalls T valid strOk r.parent cs
     (rest.1, r :: rest.2)
 
 /-- every member of the parent's class has an instance attribute, list-valued where the member is a container
